@@ -3,7 +3,7 @@
 claim("C14",
       "typestate analysis on CFG paths with versioned node handles (reset-on-growth), def-use provenance of cache stores",
       "Decides, for every path of every function of the package, that a node which gains a successor has its cached "
-      "seeds/sets discarded (or was already expanded), that every value written into the attractor caches was computed "
+      "seeds, sets and candidates discarded (or was already expanded), that every value written into the attractor caches was computed "
       "for that same node, and that seeds replace candidates only when known. This is the second sentence of the "
       "property as a path property of the code; it holds for all inputs and histories because it holds on all paths.",
       "Assumes node attribute dicts are only reached via node_data()/dag.nodes[]; value-level exactness of the cached "
@@ -46,8 +46,10 @@ claim("C16",
       "against recompute-on-demand accessors, path-enumerated None-safety of reclaimable fields",
       "Decides the structural preconditions of transparency: nothing persisted is dropped or restored from the wrong "
       "source, index-sensitive persisted data (node_indices) refers to a network in the same variable order before and "
-      "after a round trip, reclamation only drops data that has a recompute path, and every reader of reclaimable data "
-      "tolerates None or is preceded by a computing access.",
+      "after a round trip (the network object is persisted, or the text is lossless and order-preserving), reclamation only "
+      "drops caches that have a recompute path and never a result (known attractors, structure), every reader of "
+      "reclaimable data tolerates None or is preceded by a computing access, and a reclaimable value is read only by its own "
+      "accessor or where its presence provably does not change what is computed (history independence).",
       "Does not decide that pickle preserves third-party objects or that later answers are equal as values.",
       "DESIGN.md §3 C16")
 
@@ -87,8 +89,10 @@ claim("C03",
       "tables against the driver's permitted reasons; provenance of skip-edge trap lists; block-choice comparison",
       "Decides for all six drivers that a successor / node is dropped only for a permitted reason (seen; no uncovered minimal "
       "trap below the current node; empty constant-limit probe; disjoint from or strictly inside the target; already expanded), "
-      "that skip edges lead to every minimal trap space inside the skipped node, and that block choice drops a block iff a "
-      "strict sub-block exists.",
+      "that skip edges lead to every minimal trap space inside the skipped node, that a node is declared minimal only on the "
+      "evidence `minimal traps == [its own space]`, that block choice drops a block iff a strict sub-block exists, that a "
+      "driver returns True only after its work list is exhausted, that no expansion needed for completeness is the operand "
+      "of an assert, and that the public expansion methods return the result of the strategy run on the diagram itself.",
       "Independence of minimal blocks and the SCC sequencing argument are assumed.",
       "DESIGN.md §3 C03")
 
@@ -106,7 +110,9 @@ claim("C06",
       "of the accumulation; truth-table equivalence of the end-node predicate",
       "Decides that a driver set is reported only if the step's full motif is contained in percolate_space(driver | already "
       "fixed) of that very set, that each step's percolation is accumulated for the next, and that end nodes are exactly the "
-      "nodes without a 'hot' node among nx.descendants + self, hot = not consistent or (not goal and minimal).",
+      "nodes that do not reach a 'hot' node (themselves included), hot = not consistent or (not goal and minimal), with the "
+      "reachability computed by a recognised complete construction (descendant map, ancestor closure, reverse topological "
+      "or iterated sweep -- not a single sweep in id order).",
       "That LDOI containment forces the dynamics is the theorem behind the method; attractors of the overridden network are not computed.",
       "DESIGN.md §3 C06")
 
@@ -116,7 +122,8 @@ claim("C07",
       "Decides that forbidden drivers and the size bound are honoured in both strategies, that supersets of reported sets are "
       "skipped, that `successful` and the result filter are the stated predicates, that no control function mutates its "
       "caller's arguments, that target-directed expansion leaves a node unexpanded iff it is disjoint from or strictly inside "
-      "the target, and that successions are the products of reduced motif lists along all simple paths to the end nodes.",
+      "the target, that the end nodes are classified as in C06-D3, and that successions are the products of reduced motif "
+      "lists along all simple paths to the end nodes.",
       "Completeness and minimality as set equalities over run-time values are not decided.",
       "DESIGN.md §3 C07")
 
@@ -126,7 +133,9 @@ claim("C08",
       "Decides on every path and option combination that returned candidates are full states drawn from a complete "
       "enumeration (or a sound filter of one), that a list enumerated with solution_limit=L is consumed only where len<L "
       "follows, that emptiness is concluded only from complete lists, that enumeration and filters work on the node's own "
-      "reduced net and child motifs, and that the filters drop a state only when it provably reaches another candidate or a child.",
+      "reduced net and child motifs, that the filters drop a state only when it provably reaches another candidate or a "
+      "child, and that every step of a simulated walk updates one variable with its own update function evaluated on the "
+      "current state (asynchronous semantics).",
       "The NFVS reduction theorem and clingo's completeness are assumed; the solver contract len<=limit is decided by C09-T3.",
       "DESIGN.md §3 C08")
 
@@ -135,7 +144,8 @@ claim("C09",
       "directions, truth-table equivalence of the condition of every emitted clause, limit-contract analysis of the callbacks",
       "Decides encoder/decoder agreement of both encodings (all sites use one polarity convention; the place codec is a "
       "bijection), time-reversal symmetry, that each clause kind is emitted exactly under its condition with unfiltered "
-      "ranges, and that results never exceed the solution limit (empty for limit <= 0).",
+      "ranges, that results never exceed the solution limit (empty for limit <= 0), and that the caller's request "
+      "(enclosing subspace, avoided subspaces, retained set, problem, time direction) reaches the encoder unchanged.",
       "That the logic programs have the intended models is clingo's semantics and is assumed.",
       "DESIGN.md §3 C09")
 
@@ -144,7 +154,8 @@ claim("C10",
       "Shannon pairing of cofactor and literal, per-place producer/consumer removal, guard equivalence for free inputs",
       "Decides the internal consistency of the Petri-net encoder and of the two reductions (token moves zero->one for 'up', "
       "read arcs on the place of the literal's value, each place tested against itself when transitions of a fixed variable "
-      "are removed, free inputs become constants iff the space mentions them).",
+      "are removed, free inputs become constants iff the space mentions them, every clause object handed up the recursion "
+      "has one owner, a node's reduced net/network is the restriction to its own space whichever base it starts from).",
       "Equality of the encoded transition relation with the update functions on all states is not decided (needs BDD evaluation).",
       "DESIGN.md §3 C10")
 
@@ -153,7 +164,9 @@ claim("C11",
       "table of function_eval; direction of the single-driver test",
       "Decides that AEON's percolation is returned unfiltered, that strict percolation never overwrites a given value, removes "
       "constants first, keeps undetermined variables as candidates and re-runs after every new value, and that the single-node "
-      "LDOI / driver queries use exactly that percolation in the right direction. A propagation loop of another shape is "
+      "LDOI / driver queries use exactly that percolation in the right direction, and that percolation_conflicts reports "
+      "the variables whose update function, evaluated in the percolated space the flag selects, is determined and differs. "
+      "A propagation loop of another shape is "
       "answered with 'cannot decide' (exit 2), not with a violation.",
       "That the result is the least fixed point is AEON's responsibility / a property of run-time values.",
       "DESIGN.md §3 C11")
@@ -162,7 +175,8 @@ claim("C12",
       "def-use chain of every returned set (closure -> transfer_from -> intersect), pairing analysis of seed/set recording, "
       "closure conditions of the reachability test (iteration domain and skip guards)",
       "Decides that returned sets are the closures transferred from the very reduced graph they were computed on and "
-      "restricted to the node space, that seeds and sets are recorded pairwise in one order, that sets are recomputed from "
+      "restricted to the node space, that seeds and sets are recorded pairwise in one order and neither list is re-ordered "
+      "on its own afterwards, that sets are recomputed from "
       "the node's own seeds, and that the reachability test returns only after saturating every variable that has an enabled step.",
       "Equality with the true attractor relies on AEON; agreement of the fallback as sets is not decided.",
       "DESIGN.md §3 C12")
@@ -180,8 +194,9 @@ claim("C13",
 claim("C17",
       "comparison of the two regular expressions as syntax trees (character classes must be ASCII complements), structural "
       "rules on renaming and place prefixes, provenance of explicit symbolic contexts",
-      "Decides only the clause 'name sanitization produces distinct, solver-safe names' and the index-hygiene precondition "
-      "(a Petri net is never built with a symbolic context of a differently ordered network object).",
+      "Decides only the clause 'name sanitization produces distinct, solver-safe names' and two structural preconditions: "
+      "index hygiene (a Petri net is never built with a symbolic context of a differently ordered network object) and "
+      "'decisions go through BDDs, not syntax' (no inspection of the syntax tree of an update function anywhere).",
       "Isomorphism of diagrams under renaming, reordering, re-encoding or other file formats compares run-time results of "
       "transformed inputs and is NOT decided by this check.",
       "DESIGN.md §3 C17")
@@ -190,7 +205,7 @@ claim("C19",
       "order-taint analysis of set iteration (commutativity of loop bodies, interprocedural flow into the canonicalising "
       "constructor), canonical-order rules for id-assigning loops, constant-seed and shared-state rules",
       "Decides that no hash-seed dependent iteration order, unseeded randomness, module-level or default-argument shared "
-      "state or shared configuration object can reach node ids, seeds or interventions, and that ids are assigned in "
-      "canonical (sorted) orders.",
+      "state or shared configuration object can reach node ids, seeds or interventions, that ids are assigned in "
+      "canonical (sorted) orders, and that the canonical sorts are total (no key that leaves ties in arrival order).",
       "clingo and AEON are assumed deterministic for identical call sequences; dict insertion order is not treated as a result.",
       "DESIGN.md §3 C19")
